@@ -16,6 +16,7 @@ package main
 // translation for that query (and is counted).
 
 import (
+	"context"
 	"fmt"
 	"math/big"
 	"math/rand"
@@ -954,4 +955,42 @@ func (s *Solver) CheckInt(tb *TB, terms []*Term, timeout time.Duration, rng *ran
 		}
 	}
 	return Unknown, nil, false
+}
+
+// CrossInt gives a second opinion on a hard-arithmetic query: the integer translation decided by z3 4.8.12 in a
+// one-shot process under a hard time limit (the bit-vector pipe of the cross-checking solver does not come back from
+// wide division chains within minutes). Unknown: no second opinion.
+func (s *Solver) CrossInt(tb *TB, terms []*Term, timeout time.Duration) Result {
+	x := newIntTranslator(tb, terms)
+	var asserts []*IExpr
+	for _, t := range terms {
+		asserts = append(asserts, x.boolT(t))
+	}
+	if x.failed != "" {
+		return Unknown
+	}
+	asserts = append(asserts, x.side...)
+	script := x.script(asserts, false, "")
+	f, err := os.CreateTemp("", "symgo-x-*.smt2")
+	if err != nil {
+		return Unknown
+	}
+	f.WriteString(script)
+	f.Close()
+	defer os.Remove(f.Name())
+	ctx, cancel := context.WithTimeout(context.Background(), timeout+3*time.Second)
+	defer cancel()
+	out, _ := exec.CommandContext(ctx, "z3", fmt.Sprintf("-T:%d", int(timeout.Seconds())), f.Name()).CombinedOutput()
+	txt := string(out)
+	first := strings.TrimSpace(strings.SplitN(txt, "\n", 2)[0])
+	if strings.Contains(txt, "(error") {
+		return Unknown
+	}
+	switch first {
+	case "unsat":
+		return Unsat
+	case "sat":
+		return Sat
+	}
+	return Unknown
 }
